@@ -178,6 +178,34 @@ CHECKS['C15'] = dict(
     technique='TLC-enumerated input space (physical-line layouts, lambda placements), every state replayed into parse_entity, model validated against CPython ast',
     design_ref='DESIGN.md sections 3.6, 5 (C15); notes/C15.md', engine='tlc-sourcelayout')
 
+CHECKS['C12'] = dict(
+    text='spec/ErrorMap.tla models call chains (depth 1-4 over converted / do_not_convert / allow-listed links), the failing '
+         'statement (7 nesting constructs at depth 0-3, 8 failure kinds plus a failing if header), the traceback as abstract '
+         'frames, the source map, and the rewriting rules transcribed one action per decision step (scan for the innermost '
+         'mapped frame, daisy-chaining of metadata, exception re-creation with the three-valued type rule). TLC checks the '
+         'clauses of the statement on the model for every enumerated scenario; every scenario is rendered to real modules and '
+         'replayed through malt.convert, with the unconverted function\'s own CPython traceback as in-run model validation; every '
+         'scan state (and all 1365 frame sequences of length <=5) is replayed into the real _stack_trace_inside_mapped_code; every '
+         'entry of every ag_source_map is checked against the renderer\'s statement table.',
+    note='Trusted: renderer templates (cross-checked by def lines and CPython tracebacks), the token convention for provenance '
+         'of generated lines, CPython traceback line attribution. Bounded: chain <=4, nesting <=3, one statement per line, no '
+         'nested defs. Allow-listing exercised by extending config.CONVERSION_RULES in-process.',
+    technique='explicit TLA+ state machine of the error-rewriting rules + exhaustive/simulated scenario replay + differential test of the transcription',
+    design_ref='DESIGN.md sections 3.5, 5 (C12); notes/C12.md', engine='tlc-errormap')
+CHECKS['C14'] = dict(
+    text='TLC enumerates the complete bounded input space of spec/Builtins.tla (13 substituted builtins x every call shape '
+         'Python accepts x tagged small values; map/filter/zip/enumerate as lazy iterator state machines with pull traces; '
+         'acceptance, values, exception types and print output predicted by the model) and of spec/BuiltinFrames.tla (eval / '
+         'locals / globals / zero-argument super at nesting depth 0-3 inside functionalised bodies). Every terminal state is '
+         'replayed into the real builtin (model validation, exit 2 on disagreement), into py_builtins.overload_of(b), through '
+         'converted_call, and for the frame builtins through really converted functions.',
+    note='Trusted: CPython 3.12 as validator of the model in the same run; rendering of tagged values and programs. Value '
+         'domains are small (ints -3..4, floats in halves, 22 strings, sequences <=5 elements, <=3 sources, nesting <=3); '
+         'call shapes Python itself rejects are outside the property (counted only); locals() only has to contain the user\'s '
+         'variables with the right values.',
+    technique='input-space TLA+ model enumerated exhaustively by TLC, every state replayed into the implementation; lazy-iterator state machines with pull traces; frame-stack model',
+    design_ref='DESIGN.md sections 3.6, 5 (C14); notes/C14.md', engine='tlc-builtins')
+
 NOT_CLAIMED = {}
 
 
